@@ -233,3 +233,11 @@ Definition get_all (p : tree) (key : str) : list str :=
 Definition contains_key (p : tree) (key : str) : bool :=
   match get p key with Some _ => true | None => false end.
 Definition doc_items (t : tree) : list (list (str * str)) := map items (paragraphs t).
+
+(* <Paragraph as FromStr>::from_str: the first paragraph of a strictly parsed document;
+   Err 2 = "no paragraphs" *)
+Definition paragraph_from_str (s : str) : res tree :=
+  match from_str s with
+  | Ok t => match paragraphs t with p :: _ => Ok p | [] => Err 2%N end
+  | Err x => Err x | Panic x => Panic x | OutOfFuel => OutOfFuel
+  end.
